@@ -33,6 +33,7 @@ struct Inner {
     rule: String,
     caps: Vec<String>,
     machinery_errors: Vec<String>,
+    overflow: u64,
 }
 
 pub struct Replay {
@@ -137,6 +138,11 @@ impl Report {
             e.0 += 1;
             return;
         }
+        if g.violations.len() >= 40 {
+            // enough distinct replayable violations: count the rest without printing more lines
+            g.overflow += 1;
+            return;
+        }
         let path = if g.violations.len() < 40 {
             let r = replay();
             let dir = format!("{}/replays/{}", crate::verif_root(), self.id);
@@ -174,6 +180,9 @@ impl Report {
         }
         for (k, (n, what, path)) in &g.violations {
             println!("VIOLATION property={} replay={} key={} cases={} :: {}", self.id, path, k, n, what);
+        }
+        if g.overflow > 0 {
+            println!("({} further failing cases under other keys not listed)", g.overflow);
         }
         let evaluations = self.evaluations.load(Ordering::Relaxed);
         let mut cov = serde_json::Map::new();
